@@ -9,7 +9,7 @@ ENTRIES = ["Transformer._low_x_correction", "Transformer.fourier_transform", "Tr
 RULE = ("random Q grid starting at Qmin>0 (or exactly 0 in 15%), S(Q) data, r grid (with r=0 in 40%), Lorch on/off, density; the "
         "added term (with minus without OmittedXrangeCorrection) is compared with (2/pi) int_0^Qmin Q[S_lin(Q)-1] w(Q) sin(Qr) dQ "
         "by 400-point Gauss-Legendre quadrature, for all four input and three output functions; non-trivial = Qmin>0 and >= 3 Q points")
-DIST = ["lorch", "qmin0", "out", "inp", "uniform"]
+DIST = ["lorch", "qmin0", "out", "inp", "uniform", "xmin"]
 SHRINK = None
 _GL = np.polynomial.legendre.leggauss(400)
 
@@ -23,7 +23,11 @@ def gen(rng, i, tier):
     uniform = bool(rng.random() < 0.35) and not qmin0
     if uniform:
         q = np.linspace(q[0], q[-1], len(q))
-    return dict(q=tolist(q), s=tolist(s), r=tolist(r), lorch=bool(rng.random() < 0.5), qmin0=qmin0, kw=material(rng), uniform=uniform,
+    win = None
+    if not qmin0 and not uniform and len(q) > 6 and rng.random() < 0.3:
+        k = int(rng.integers(1, len(q) // 2))
+        win = float(q[k] - rng.uniform(0.1, 0.9) * (q[k] - q[k - 1]))  # strictly between two grid points
+    return dict(q=tolist(q), s=tolist(s), r=tolist(r), lorch=bool(rng.random() < 0.5), qmin0=qmin0, kw=material(rng), uniform=uniform, xmin=win,
                 nr=int(rng.integers(2, 30)), delr=float(rng.uniform(0.02, 0.4)),
                 out=str(rng.choice(["G", "g", "GK"])), inp=str(rng.choice(["S", "F", "FK", "DCS"])), s2scale=float(rng.uniform(0.5, 2)))
 
@@ -50,6 +54,14 @@ def evaluate(case):
         kw["lorch"] = True
     fails = []
     inp, out = case["inp"], case["out"]
+    if case.get("xmin") is not None:
+        # an explicit lower window limit: the data entering the transform start at the first grid point >= xmin, and
+        # that point (not the limit itself) is the Qmin of the linear-to-zero model
+        kw["xmin"] = case["xmin"]
+        keep = q >= case["xmin"]
+        q_eff, s_eff = q[keep], s[keep]
+    else:
+        q_eff, s_eff = q, s
     y = s if inp == "S" else getattr(cv, f"S_to_{inp}")(q, s, **kw)[0]
     fn = getattr(tr, f"{inp}_to_{out}")
     with np.errstate(all="ignore"):
@@ -60,7 +72,7 @@ def evaluate(case):
         Goff = w_off if out == "G" else getattr(cv, f"{out}_to_G")(r, w_off, **kw)[0]
     added = np.asarray(Gon, dtype=float) - np.asarray(Goff, dtype=float)
     pos = r > 0
-    qmin, qmax, smin = float(q[0]), float(q[-1]), float(s[0])
+    qmin, qmax, smin = float(q_eff[0]), float(q_eff[-1]), float(s_eff[0])
     if qmin == 0.0:
         if np.abs(added).max() > 1e-12 * max(1.0, float(np.abs(Goff).max())):
             fails.append("added term is not zero although Qmin = 0")
@@ -74,7 +86,8 @@ def evaluate(case):
         fails.append("added term does not vanish at r = 0")
     # depends on the data only through Qmin, S(Qmin) (and Qmax with Lorch)
     s2 = s.copy()
-    s2[1:-1] = 1 + (s2[1:-1] - 1) * case["s2scale"] + 0.1
+    first = int(np.argmax(q >= case["xmin"])) if case.get("xmin") is not None else 0
+    s2[first + 1:-1] = 1 + (s2[first + 1:-1] - 1) * case["s2scale"] + 0.1   # interior of the data that enter the transform
     y2 = s2 if inp == "S" else getattr(cv, f"S_to_{inp}")(q, s2, **kw)[0]
     with np.errstate(all="ignore"):
         _, v_on, _ = fn(q, y2, r, OmittedXrangeCorrection=True, **kw)
